@@ -188,6 +188,15 @@ def run_tree(case, ctx):
         ctx.check('update_merge_model', ok, lambda: 'tree_update(%r, %r, ignore=%r) = %s %r\nrecursive merge gives %r' % (case['t'], case['u'], case.get('ignore'), st, res, exp))
         unmod = idsnap_same(idsnap(t), s0) and idsnap_same(idsnap(u), su)
         ctx.check('operands_unmodified_deep', unmod, lambda: 'tree_update modified an operand at depth: t %r -> %r ; u %r -> %r' % (mt, plainify(t), mu, plainify(u)))
+        if ok and unmod and isinstance(res, dict):
+            # the merge belongs to the caller: writing into every branch of it (also those the update never touched) leaves t as it was
+            def scribble(node, depth=0):
+                if isinstance(node, dict) and depth < 8:
+                    for v_ in list(dict.values(node)):
+                        scribble(v_, depth + 1)
+                    dict.__setitem__(node, '__written_by_the_caller__', depth)
+            scribble(res)
+            ctx.check('operands_unmodified_deep', idsnap_same(idsnap(t), s0), lambda: 'writing into the branches of tree_update(t, u) changed t: %r -> %r' % (mt, plainify(t)))
         st, r2 = ctx.call(tree_update, t, t)
         ctx.check('update_identities', st == 'ok' and teq(r2, mt), lambda: 'tree_update(t,t) = %r != t %r' % (r2, mt))
         st, r3 = ctx.call(tree_update, t, {})
